@@ -29,6 +29,11 @@ pub struct ECase {
     pub status_override: Option<u16>,
     pub headers: Vec<(String, String)>,
     pub via: String,
+    /// by which public route the backend builds the error value: 0 constructor with the final code; 1 another code
+    /// first, then set_code / set_message; 2 with_source, then set_message; 3 internal_error(..), then set_code / set_message;
+    /// 4 with_message_fmt
+    #[serde(default)]
+    pub built: u8,
 }
 
 fn hostile_text(g: &mut Rng) -> String {
@@ -50,9 +55,42 @@ fn expected_status(code: &str) -> Option<u16> {
 
 fn build_error(case: &ECase) -> s3s::S3Error {
     let code = s3s::S3ErrorCode::from_bytes(case.code.as_bytes()).unwrap_or_else(|| s3s::S3ErrorCode::Custom(case.code.clone().into()));
-    let mut e = match &case.message {
-        Some(m) => s3s::S3Error::with_message(code, m.clone()),
-        None => s3s::S3Error::new(code),
+    let mut e = match case.built {
+        1 => {
+            // a backend that refines the code of an error it got from elsewhere
+            let first = if case.code == "InternalError" { s3s::S3ErrorCode::NoSuchKey } else { s3s::S3ErrorCode::InternalError };
+            let mut e = s3s::S3Error::with_message(first, "first message");
+            e.set_code(code);
+            match &case.message {
+                Some(m) => e.set_message(m.clone()),
+                None => e = {
+                    let mut n = s3s::S3Error::new(s3s::S3ErrorCode::AccessDenied);
+                    n.set_code(s3s::S3ErrorCode::from_bytes(case.code.as_bytes()).unwrap_or_else(|| s3s::S3ErrorCode::Custom(case.code.clone().into())));
+                    n
+                },
+            }
+            e
+        }
+        2 => {
+            let mut e = s3s::S3Error::with_source(code, Box::new(std::io::Error::other("verif source")));
+            if let Some(m) = &case.message {
+                e.set_message(m.clone());
+            }
+            e
+        }
+        3 => {
+            let mut e = s3s::S3Error::internal_error(std::io::Error::other("verif source"));
+            e.set_code(code);
+            if let Some(m) = &case.message {
+                e.set_message(m.clone());
+            }
+            e
+        }
+        4 if case.message.is_some() => s3s::S3Error::with_message_fmt(code, format_args!("{}", case.message.as_deref().unwrap_or(""))),
+        _ => match &case.message {
+            Some(m) => s3s::S3Error::with_message(code, m.clone()),
+            None => s3s::S3Error::new(code),
+        },
     };
     if let Some(id) = &case.request_id {
         e.set_request_id(id.clone());
@@ -541,7 +579,7 @@ pub fn run(ctx: &RunCtx) -> i32 {
                 }
             }
             let via = ["backend/get-object", "backend/put-object", "backend/get-bucket-location", "backend/head-bucket"][(i % 4) as usize];
-            let case = ECase { code: code.clone(), message, request_id, status_override, headers, via: via.into() };
+            let case = ECase { code: code.clone(), message, request_id, status_override, headers, via: via.into(), built: ((i / 4) % 5) as u8 };
             if sample_skip() {
                 continue;
             }
